@@ -189,3 +189,17 @@ func verifHeldBytes(strms Streams) int {
 
 	return n
 }
+
+var verifCtxStream sync.Map // *fasthttp.RequestCtx -> stream id of the request it carries
+
+func verifDispatchedCtx(id uint32, ctx interface{}) { verifCtxStream.Store(ctx, id) }
+
+// VerifStreamOf returns the stream id a request context was dispatched for.
+func VerifStreamOf(ctx interface{}) (uint32, bool) {
+	v, ok := verifCtxStream.Load(ctx)
+	if !ok {
+		return 0, false
+	}
+
+	return v.(uint32), true
+}
